@@ -132,6 +132,23 @@ def run(tier, rep):
     for o in outs:
         for r in bcrun.read_ndjson(o):
             res[r["id"]] = r
+    # a worker death must be reproducible to count: every case whose child was killed by a signal other than the alarm is run again
+    # twice, alone, in fresh workers; it keeps the outcome "killed" only if it dies each time (a replay has to show what is reported)
+    dead = [x for x in faulty if res[x["id"]]["outcome"].startswith("killed")]
+    flaky = 0
+    for x in dead[:40]:
+        again = []
+        for k in range(2):
+            inp = d / "retry.ndjson"
+            inp.write_text(json.dumps({"id": x["id"], "bytes": x["bytes"]}) + "\n")
+            out = d / "retry-out.ndjson"
+            lib.run_py(lib.MAIN_HOST, lib.HARNESS / "fault_worker.py", [out, inp, d / "tmpretry"], env={"VERIF_LOAD_MODE": "auto"}, timeout=300)
+            again.append(bcrun.read_ndjson(out)[0])
+        if not all(r_["outcome"].startswith("killed") for r_ in again):
+            flaky += 1
+            res[x["id"]] = [r_ for r_ in again if not r_["outcome"].startswith("killed")][0]
+    if dead:
+        rep.extra["worker_deaths"] = {"first_run": len(dead), "not_reproduced_alone": flaky}
     # strict verdict of the reference reader for faults inside the payload (header intact)
     judged = []
     for x in faulty:
@@ -166,17 +183,24 @@ def run(tier, rep):
         oc = r["outcome"]
         outcomes[oc] = outcomes.get(oc, 0) + 1
         base = x["base"]
+        # the call site that matters for a finding: was the payload handed to the host's built-in marshal (file magic = host magic)?
+        native = (base in base_of and base_of[base]["magic"] == mrun.OWN_MAGIC[lib.MAIN_HOST]) or base == "native-real-file" or \
+                 (base == "hostile" and x["bytes"][:2] == [mrun.OWN_MAGIC[lib.MAIN_HOST] & 255, mrun.OWN_MAGIC[lib.MAIN_HOST] >> 8])
+        site = "native-fast-path" if native else base
         if oc not in ("tuple", "ImportError"):
-            rj("C11.outcome:%s:%s" % (oc.split(":")[0] if oc.startswith("killed") else oc, base), {"id": x["id"], "outcome": oc, "cause": r.get("cause"), "wall": r.get("wall")}, x)
+            killed = oc.startswith("killed")
+            rj("C11.outcome:%s:%s" % (oc.split(":")[0] if killed else oc, site if killed else base),
+               {"id": x["id"], "outcome": oc, "cause": r.get("cause"), "wall": r.get("wall")}, x)
         elif oc == "ImportError" and r.get("cause") == "MemoryError":
-            native = base in base_of and base_of[base]["magic"] == mrun.OWN_MAGIC[lib.MAIN_HOST] or (base == "hostile" and x["bytes"][:2] == [mrun.OWN_MAGIC[lib.MAIN_HOST] & 255, mrun.OWN_MAGIC[lib.MAIN_HOST] >> 8])
-            rj("C11.memory_exhaustion_attempt:%s" % ("native-fast-path" if native else base), {"id": x["id"], "cause": "MemoryError inside ImportError (survived only because of the rlimit)"}, x)
+            rj("C11.memory_exhaustion_attempt:%s" % site, {"id": x["id"], "cause": "MemoryError inside ImportError (survived only because of the rlimit)"}, x)
         if r.get("audit"):
             rj("C11.audit:%s:%s" % (r["audit"][0].split(":")[0], base), {"id": x["id"], "events": r["audit"]}, x)
         if r.get("stdout"):
             rep.extra["stdout_writes"] = rep.extra.get("stdout_writes", 0) + 1
-        if r.get("wall", 0) > 20:
-            rj("C11.slow:%s" % base, {"id": x["id"], "wall": r["wall"]}, x)
+        if r.get("load_s", r.get("wall", 0)) > 20:
+            rj("C11.slow:%s" % base, {"id": x["id"], "wall": r.get("load_s", r.get("wall"))}, x)
+        if r.get("after_return"):
+            rep.extra["worker_died_after_return"] = rep.extra.get("worker_died_after_return", 0) + 1
         if oc == "ImportError" and r.get("cause") == "RecursionError":
             rep.extra["recursion_guard_fired"] = rep.extra.get("recursion_guard_fired", 0) + 1
     host_magic = mrun.OWN_MAGIC[lib.MAIN_HOST]
@@ -188,7 +212,13 @@ def run(tier, rep):
             # C11 asks for a clean outcome there, the value is the host's business
             continue
         if verdict.get(rc["id"]) == "ok" and v["clause"] == "value":
-            rj("C11.value_of_wellformed_variant:%s" % x["base"], {"id": rc["id"], "clause": v["clause"], "note": "the faulty file is still well-formed; xdis returned a different value"}, x)
+            # C11 asks for a clean outcome, not for the value of a damaged-but-still-readable stream (e.g. the code object's type byte turned
+            # into a string's, or a name written as TYPE_STRING): what such streams decode to is C01/C10 territory for the inputs those
+            # properties quantify over.  Counted in the evidence, never a verdict.
+            other = rep.extra.setdefault("wellformed_variants_with_another_value", {"count": 0, "examples": []})
+            other["count"] += 1
+            if len(other["examples"]) < 5:
+                other["examples"].append(rc["id"])
     for x in faulty:
         b = base_of.get(x["base"])
         if b and x["pos"] > b["hdr"]:
